@@ -414,6 +414,7 @@ class Runner(object):
         self.alloc = []     # handles allocated by each executed op
         self.stats = {}
         self.notes = set()
+        self.seen_rows = set()
         self.iters = []     # lazily consumed selects: (class, iterator) or None when exhausted
         self.blobs = []     # pickled states: (bytes, class, row id, raw python id, attribute snapshot, row at that time)
         self.reset()
@@ -1214,10 +1215,20 @@ class Runner(object):
                         elif exp[0] == 'val' and exp[1] != o.__dict__[key]:
                             self.fail('stale-read', k, '%s: instance %d (row %d) caches %s=%r, the database/pending value is %r'
                                       % (where, h, hd.rid, ATTRS[k][c], o.__dict__[key], exp[1]))
-        for k in range(len(CLASSES)):
-            for rid in range(1, MAXID + 1):
-                self.lines.append(('row %d %d' % (k, rid), self.rawcanon(k, rid), 'raw row after every step: model = SQLite'))
+        self.emit_rows(full=False)
         self.conn.stmts = []
+
+    def emit_rows(self, full):
+        """raw rows vs the model: every row that exists or has existed in this history (all rows when `full`)"""
+        for k in range(len(CLASSES)):
+            cur = self.raw.cursor()
+            cur.execute('SELECT id FROM %s' % tbl(k))
+            for r in cur.fetchall():
+                self.seen_rows.add((k, int(r[0])))
+            cur.close()
+        keys = [(k, rid) for k in range(len(CLASSES)) for rid in range(1, MAXID + 1)] if full else sorted(self.seen_rows)
+        for (k, rid) in keys:
+            self.lines.append(('row %d %d' % (k, rid), self.rawcanon(k, rid), 'raw row after every step: model = SQLite'))
 
 
 # ---------------------------------------------------------------- generator
@@ -1374,6 +1385,7 @@ def run_history(do_cache, mode, ops, prop='C05'):
     r = Runner(do_cache, mode, prop)
     for op in ops:
         r.apply(op)
+    r.emit_rows(full=True)
     return r
 
 
@@ -1504,6 +1516,7 @@ def drive(ctx, prop, weights, n_hist, max_ops, modes=('A', 'B')):
         while len(r.executed) < nops and tries < nops * 3:
             tries += 1
             r.apply(gen_op(rng, r, weights))
+        r.emit_rows(full=True)
         runs.append((r, do_cache, mode, 'random'))
         if r.fails and len(ctx.oracle_fails) < 40:
             report_fails(ctx, prop, r, do_cache, mode, r.executed)
@@ -1512,14 +1525,58 @@ def drive(ctx, prop, weights, n_hist, max_ops, modes=('A', 'B')):
     flush(ctx, runs)
 
 
+def probe_like_named(ctx):
+    """known finding (open): the connection keeps one identity map per class NAME, so like-named classes of two
+    registries share it.  Two int-id classes `Twin` in two registries: B.get(1) must be an instance of B showing B's row."""
+    sqlo.setup()
+    from sqlobject import SQLObject, IntCol
+    conn = sqlo.mem_conn()
+    tag = sqlo.uniq('twin')
+
+    def mk(reg, table, col):
+        return type('Twin', (SQLObject,), {'_connection': conn, col: IntCol(default=None),
+                                           'sqlmeta': type('sqlmeta', (), {'table': table, 'registry': tag + reg})})
+    A = mk('a', 't_twin_a', 'x')
+    B = mk('b', 't_twin_b', 'y')
+    A.createTable()
+    B.createTable()
+    what = None
+    try:
+        a = A(x=1)
+        conn._memoryConn.execute('INSERT INTO t_twin_b (id, y) VALUES (1, 77)')
+        b = B.get(1)
+        if not isinstance(b, B) or getattr(b, 'y', None) != 77:
+            what = ('with two classes named alike in two registries on one connection, B.get(1) returned %s showing %r; '
+                    'row 1 of B holds y=77' % ('the instance of A' if b is a else type(b).__name__, getattr(b, 'y', '<no attribute y>')))
+    except Exception as ex:
+        what = 'like-named classes in two registries: %s' % sqlo.exc_name(ex)
+    ctx.case(('probe', 'like-named'), sample={'probe': 'like-named classes share the cache', 'failed': bool(what)}, kind='directed probe')
+    if what:
+        ctx.oracle_fail('C05:like-named-classes-share-cache', what,
+                        {'probe': 'like_named', 'cache': True, 'mode': 'B', 'ops': []})
+
+
 def run(ctx):
     env(True)
     env(False)
+    probe_like_named(ctx)
     n = ctx.budget(2500, 15000)
     drive(ctx, 'C05', W_C05, n, 30 if ctx.tier == 'quick' and not ctx.deep else 60)
 
 
 def replay(case):
+    if case.get('probe') == 'like_named':
+        class _C(object):
+            fails = []
+
+            def case(self, *a, **k):
+                pass
+
+            def oracle_fail(self, key, what, case):
+                self.fails.append(what)
+        c = _C()
+        probe_like_named(c)
+        return (not c.fails), '\n'.join(c.fails) or 'like-named classes keep separate identity maps'
     r = run_history(case['cache'], case['mode'], [list(o) for o in case['ops']], 'C05')
     bad = [f for f in r.fails if f[0] == case.get('kind', f[0])]
     txt = '\n'.join('%s [%s]: %s' % f for f in r.fails) or 'no oracle failure on this history'
